@@ -1,4 +1,16 @@
-"""C13 check configuration (see lib/props.py for the field meanings)."""
+"""C13 check configuration (see lib/props.py for the field meanings).
+
+Packaging note.  One propdef builds one package, but C13 has to observe two: configmigrate.Migrate and
+the current loader of package home (type configuration, validateConfig).  The harness therefore lives in
+the *external* test package configmigrate_test (files injected into internal/configmigrate as usual;
+Migrate/New/Config are exported, so nothing white-box is needed), which - unlike the in-package tests -
+may import internal/home.  The unexported loader is reached through a 60-line shim,
+harness/home/c13_load.go, overlaid as the NON-test file internal/home/zz_verif_c13_load.go (build tag
+"verif", "extra_overlay" below): VFC13Load(body) repeats the three calls parseConfig makes after the
+upgrade (yaml.Unmarshal over a fresh copy of the default configuration, validateConfig,
+validateTLSCipherIDs).  So the loadability clause is checked in the same rapid case that produced the
+upgraded document, by the real loader, and no second propdef/package is needed.
+"""
 
 PROP = {
     "pkg": "internal/configmigrate",
@@ -10,19 +22,69 @@ PROP = {
     ],
     "extra_overlay": {"internal/home/zz_verif_c13_load.go": "home/c13_load.go"},
     "level": "exploration",
-    "technique": "tbd",
-    "level_text": "tbd",
-    "level_note": "tbd",
+    "technique": "property-based testing (rapid): metamorphic oracles (every split point of the version range, "
+                 "idempotence), frame oracle from a table of the keys each step names, constructive expectation "
+                 "for documents valid under their own schema (settings rendered in the layout of schema v vs the "
+                 "layout of schema 29), crash/error oracles on shape-fuzzed and byte-edited documents, and the "
+                 "real loader of package home on the upgraded bytes",
+    "level_text": "Generated configuration documents of every schema version 0..29: (a) shape fuzz - a valid "
+                  "document with 1-3 mutations (key null / deleted / wrong scalar / list for map / map for list / "
+                  "null or mistyped list element / key of another schema / unknown key), hostile schema_version "
+                  "values, sparse documents, byte-level edits from a YAML token dictionary; (b) documents valid "
+                  "under their own schema, rendered from abstract settings in the layout the step documentation "
+                  "gives for that schema, with unknown keys at every level, shuffled key order, flow style, "
+                  "optional keys dropped. Asserted per document: no panic; error => returned bytes identical to "
+                  "the input and upgraded=false; success => stamped 29, upgraded flag right, a second upgrade is a "
+                  "byte-identical no-op; for EVERY split point k in (v,29): Migrate(Migrate(x,k),29) equals "
+                  "Migrate(x,29) as YAML trees, and a failing one-run upgrade never succeeds when split; keys no "
+                  "step between v and 29 names are unchanged (top level and inside dns/dhcp/clients/querylog/"
+                  "statistics/http/filtering), nothing unnamed appears; for class (b): the upgrade succeeds, equals "
+                  "the documented result, and package home's loader accepts the bytes and reads schema 29. "
+                  "Exploration, no absence claim.",
+    "level_note": "Trusts yaml.v3 (decoding, and encoding of the generated input) and x/crypto/bcrypt. Step 5 "
+                  "(bcrypt, ~50 ms/hash) is entered only by TestVFC13Auth (30 quick / 8x60 thorough cases, two split "
+                  "points each); all other cases of schemas 0..4 carry no auth_pass. Documents using YAML "
+                  "anchors/aliases/merge keys get only the crash/error/stamp/idempotence oracles (shared sub-trees "
+                  "are outside the quantifier). The file-level half of 'leaving the file content unchanged' "
+                  "(home.parseConfig not rewriting the file on error) is implied by Migrate returning the input "
+                  "bytes and is not observed on disk here (C14 covers that writer). Measured cost is ~60-100 ms per "
+                  "document (about 60 Migrate calls for an old document), an order of magnitude above the design "
+                  "estimate, hence the smaller case counts.",
     "tests": [
-        ("TestVFC13Valid", (300, 2500)),
-        ("TestVFC13Shape", (700, 6000)),
-        ("TestVFC13Bytes", (1500, 10000)),
-        ("TestVFC13Auth", (30, 100), {"shards": (1, 8)}),
+        ("TestVFC13Valid", (300, 1200)),
+        ("TestVFC13Shape", (700, 3000)),
+        ("TestVFC13Bytes", (1500, 5000)),
+        ("TestVFC13Auth", (30, 60), {"shards": (1, 8), "shrinktime": "5s"}),
     ],
     "plain": ["TestVFC13RegressNullObject", "TestVFC13RegressNullDocument"],
     "shards": (2, 16),
     "workers": (4, 16),
-    "rule": "tbd",
-    "assumptions": [],
+    "rule": "One evaluation = one generated document put through the upgrade with all oracles (plus 17 frozen "
+            "regression documents). Cases: schema version uniform in 0..29; class (a) = a valid document of that "
+            "schema with 1-3 shape mutations and/or a hostile schema_version, or a valid text with 1-3 byte-level "
+            "edits; class (b) = abstract settings rendered in the schema's layout with validity-preserving edits. "
+            "Non-trivial = the document holds at least one non-null top-level key that some step between its "
+            "version and 29 reads (so a step actually works on it); byte-edited texts count only when they still "
+            "parse. Distinct = FNV-64 of (layout version, claimed version, schema_version kind, sorted "
+            "(path:mutation kind) list) for class (a), of (version, dropped keys, text style, branch-steering "
+            "settings: IPv6 bind host, auth, users/clients/filters counts, QUIC upstream, absolute filter path, "
+            "'.' in ignored lists, statistics on/off and interval, all_servers/fastest_addr, EDNS, safe search) "
+            "for class (b), of the text for byte edits.",
+    "assumptions": [
+        "yaml.v3 decodes a document the same way for the harness and for Migrate, and re-reads what it encodes (checked per case: VERIF-INCONCLUSIVE otherwise)",
+        "numbers keep their value, not their YAML type: a float without fraction may come back as an integer (0. -> 0), which yaml.v3's encoder does",
+        "schema_version absent or null means schema 0",
+        "the BEFORE/AFTER blocks in the doc comments of internal/configmigrate/v1.go..v29.go (and CHANGELOG.md for upstream_mode) are the documentation of what a step concerns",
+        "the loader shim repeats parseConfig's post-upgrade calls on a fresh copy of the default configuration",
+    ],
+    "require_classes": {
+        "thorough": [
+            "class:a_shape", "class:a_bytes", "class:b_valid", "class:b_auth", "shape:upgraded", "shape:refused",
+            "valid:exact_expectation", "valid:optional_keys_dropped", "outcome:already_current",
+            "bytes:parses_and_upgraded", "mutation:null", "mutation:list_for_map", "mutation:map_for_list",
+            "mutation:nested_null", "mutation:inject", "mutation:scalar", "version:00-04", "version:05-14",
+            "version:15-22", "version:23-28", "version:current", "version:not_historical",
+        ],
+    },
     "claimed": False,
 }
